@@ -17,10 +17,11 @@ class Prop(PropBase):
             'PCAP_FILE (repeat and no-repeat; stop/start after end-of-file; missing file) and ONLINE_LIDAR (bind success and failure) inputs; always included: start before init, init twice, start twice, stop without start, '
             'decodePacket before init / while stopped, destroy while running; after every call the return value, init/start flags, existence (joinability) of both worker threads, processed-packet count and the number of '
             'close() calls on descriptors the process never opened are compared with the model; any callback after stop() returned is reported; cloud and packet sequence numbers must continue across restarts; '
-            'the same histories under ThreadSanitizer; non-trivial = history with a restart or a failed init or a destroy while running')
+            'the same histories under ThreadSanitizer; thorough tier adds every call sequence of length 4 over six calls (RAW_PACKET, 1296 histories) and of length 3 over seven calls (PCAP_FILE, 343 histories); non-trivial = history with a restart or a failed init or a destroy while running')
     explanation = ('C11_T1..T4 (Coq: for every call history threads exist iff started, started implies initialised; stop/destroy are barriers; init/start idempotent; start before init and failed init are inert; '
                    'counts never go back and packets accepted while stopped are decoded after restart) + call-history correspondence on the real driver + TSan')
-    assumptions = ['deadlock freedom is observed (every history must terminate within the harness time-out), not proved',
+    assumptions = ['the caller waits for an idle pipeline before stop() whenever a count is compared afterwards (whether stop() overtakes queued packets is timing; either outcome satisfies the property)',
+                   'deadlock freedom is observed (every history must terminate within the harness time-out), not proved',
                    'the worker threads are represented by their existence; what they do between start and stop is the subject of C10/C12']
     projection = {'kinds': KINDS}
 
@@ -68,6 +69,8 @@ class Prop(PropBase):
                     continue
                 lines.append(f'LP 0 {rng.choice(pk).hex()}')
                 continue
+            if c == 'LX' and st['alive'] and st['start'] and kind != 'pcaprep':
+                lines.append('LW 0')        # whether stop() overtakes packets still queued is timing: the caller waits for an idle pipeline first
             lines.append(f'{c} 0')
             if not st['alive']:
                 continue
@@ -106,6 +109,61 @@ class Prop(PropBase):
         ts = [self.history(rng, kind, f'c11_t_{kind}_{k}', base + 2000 + 4 * (5 * k + j)) for k in range(2 if tier == 'quick' else 12)
               for j, kind in enumerate(('raw', 'pcap', 'pcaprep', 'sock'))]
         out.append(('tsan_life', '\n'.join(ts) + '\n'))
+        if tier != 'quick':
+            # every call sequence of length 4 over the six calls on a RAW_PACKET driver (1296 histories), and of length 3 over
+            # seven calls on a no-repeat PCAP_FILE driver (343 histories): small-scope exhaustive, on the real code
+            import itertools
+            l = self.L['RS16']
+            cfg = pktgen.Cfg(wait=0, dense=0, pktcb=1, lclock=1, mode=3, nblk=3)
+            ms = scen.MechStream(rng, l)
+            pk = [l.difop()] + [ms.msop() for _ in range(3)]
+            ex = []
+            for k, seq in enumerate(itertools.product(['LI', 'LS', 'LX', 'LP', 'LW', 'LD'], repeat=4)):
+                name = f'c11_x_raw_{k}'
+                self.feats[name] = {'exhaustive'}
+                lines = [f'S {name}', cfg.line(0, l), 'LC 0 1']
+                st = {'init': False, 'start': False}
+                for c in seq:
+                    if c == 'LX' and st['start']:
+                        lines.append('LW 0')
+                    lines.append(f'LP 0 {pk[1].hex()}' if c == 'LP' else f'{c} 0')
+                    if c == 'LI': st['init'] = True
+                    elif c == 'LS' and st['init']: st['start'] = True
+                    elif c == 'LX': st['start'] = False
+                    elif c == 'LD': st = {'init': False, 'start': False}
+                lines.append('E')
+                ex.append('\n'.join(lines))
+            out.append(('life_exh_raw', '\n'.join(ex) + '\n'))
+            ex = []
+            port = base + 3000
+            for k, seq in enumerate(itertools.product(['LI', 'LS', 'LX', 'LW', 'LD', 'LS+LE', 'LX+LS'], repeat=3)):
+                name = f'c11_x_pcap_{k}'
+                self.feats[name] = {'exhaustive'}
+                lines = [f'S {name}', cfg.line(0, l), f'N 0 1 {port} {port + 1} 0 0']
+                for p in pk:
+                    f = udp_frame(p, port if p[0] == 0x55 else port + 1); lines.append(f'F 0 {len(f)} {f.hex()}')
+                lines.append('LC 0 1')
+                st = {'init': False, 'start': False}
+                for c in seq:
+                    for cc in c.split('+'):
+                        if cc == 'LE':
+                            if not (st['init'] and st['start'] and st.get('unread')):
+                                continue
+                            st['unread'] = False
+                        if cc == 'LW' and st['start'] and st.get('unread'):
+                            lines.append('LE 0'); st['unread'] = False
+                        if cc == 'LX' and st['start']:
+                            lines.append('LW 0')
+                        lines.append(f'{cc} 0')
+                        if cc == 'LI': st['init'] = True
+                        elif cc == 'LS' and st['init'] and not st['start']:
+                            st['start'] = True; st['unread'] = True
+                            lines.append('LE 0'); st['unread'] = False       # a session reads the file to its end (see history())
+                        elif cc == 'LX': st['start'] = False; st['unread'] = False
+                        elif cc == 'LD': st = {'init': False, 'start': False}
+                lines.append('E')
+                ex.append('\n'.join(lines))
+            out.append(('life_exh_pcap', '\n'.join(ex) + '\n'))
         return out
 
     def classify(self, name, lines):
